@@ -1,6 +1,8 @@
 """C05 — deletion removes exactly the entity, its descendants and all references to them."""
 from ..core import CaseResult, Check
-from ..engines import tree
+from hypothesis import strategies as st
+
+from ..engines import concat, tree
 
 
 class C05(Check):
@@ -15,7 +17,10 @@ class C05(Check):
         "removed entity; after close no flat-container node, child link or PropertyGroups entry in the file "
         "(plain h5py) mentions it; survivors equal the reference model; any later valid operation that raises is a "
         "violation; removal of an allow_delete=False entity through the workspace must raise and leave the tree "
-        "unchanged. Non-trivial = removal of an entity with >=1 descendant or >=1 property-group membership, "
+        "unchanged. One program in four runs on the drillhole-group (concatenated) model instead: removals of data, holes and "
+        "tables through workspace / parent, refused removals of the protected location data, survivors must read back the "
+        "model values, lookups by uid must not yield removed entities, raw index / attribute records must not mention them. "
+        "Non-trivial = removal of an entity with >=1 descendant or >=1 property-group membership, "
         "followed by >=1 further effective operation and a re-open. Distinct = program hash."
     )
     assumptions = ["'once the caller has dropped its references' is taken literally: the harness drops them and "
@@ -32,10 +37,21 @@ class C05(Check):
         return cfg
 
     def strategy(self, tier):
-        return tree.program_strategy(self.cfg(tier))
+        trees = tree.program_strategy(self.cfg(tier))
+        holes = concat.program_strategy(max_ops=20 if tier == "quick" else 30, removal_heavy=True).map(
+            lambda prog: {**prog, "family": "concat"})
+        return st.one_of(trees, trees, trees, holes)
 
     def run_case(self, program):
         res = CaseResult()
+        if program.get("family") == "concat":
+            # concatenated holes and their data: same clauses on the drillhole-group model (signatures C05/...)
+            run = concat.ConcatRun(program, res, pid="C05")
+            stats = run.execute()
+            res.label("family:concat")
+            res.nontrivial = run.removal_seen and stats["ops"] >= 3 and not res.fails
+            return res
+        res.label("family:tree")
         run, stats = tree.run_tree(program, res, {"C05"})
         ops = program["ops"]
         res.nontrivial = stats["removals_rich"] > 0 and stats["effective"] >= 3 and not res.fails
